@@ -1,15 +1,14 @@
 ----------------------------- MODULE MC_Payload ------------------------------
 EXTENDS Payload, Mk, TLC, FiniteSets, Json
 VARIABLE c
-Alphabet == { MkIhw(7), MkTdh(3, 1, 0, 0, 5, 1001), MkTdh(16, 0, 1, 0, 0, 0), MkData(34, 160), MkData(34, 255) , MkTdt(1), MkTdt(0), MkDdw0,
+Alphabet == { MkIhw(7), MkTdh(3, 1, 0, 0, 5, 1001), MkTdh(16, 0, 1, 0, 0, 0), MkData(34, 160), MkData(34, 255) , MkTdt(1), MkTdt(0), MkDdw0,      \* TDT / DDW0 start with six zero bytes: in second position they look like a 16-byte slot
               <<255,255,255,255,255,255,255,255,255,34>> }      \* a data word full of 0xFF (only the id differs)
 Seqs == UNION {[1..n -> Alphabet] : n \in 0..3}
 Init == c \in [df : {0, 2}, ws : Seqs, pad : 0..20]
 Next == UNCHANGED c
-P == Encode(c.df, c.ws, IF c.df = 0 THEN 0 ELSE c.pad)
-\* second word (if any) never starts with six zero bytes in format 2 (grammar: it is a TDH) -- explicit assumption
-Assumed == c.df = 2 /\ Len(c.ws) >= 2 => ~(\A k \in 1..6 : c.ws[2][k] = 0)
-CutExact == Assumed => IF c.df = 2 /\ c.pad > 15 THEN PadErr(P) ELSE (~PadErr(P) /\ Cut(P) = c.ws)
-Emit == Assumed => PrintT("CASE " \o ToJson([df |-> c.df, pad |-> c.pad, payload |-> P, paderr |-> (c.df = 2 /\ c.pad > 15), words |-> c.ws]))
+P == Encode(c.df, c.ws, c.pad)
+\* no word of the alphabet ends in 0xFF (identifiers are never 0xFF), so the trailing 0xFF run of P is exactly the padding
+CutExact == IF c.pad > 15 THEN PadErr(P) ELSE (~PadErr(P) /\ Cut(c.df, P) = c.ws)
+Emit == PrintT("CASE " \o ToJson([df |-> c.df, pad |-> c.pad, payload |-> P, paderr |-> (c.pad > 15), words |-> c.ws]))
 Offsets == \A i \in 1..Len(c.ws) : WordOffset(0, c.df, i - 1) = 64 + (i - 1) * (IF c.df = 0 THEN 16 ELSE 10)
 ==============================================================================
